@@ -187,9 +187,11 @@ def check_harness(res, tag, behaviours, n):
     recs = to_trace([json.loads(l) for l in open(files[0]) if l.strip()])
     if sum(1 for e in recs if e["ev"] == "step") < len(sample):
         raise vlib.ToolError("harness trace has too few step events (%d behaviours)" % len(sample))
-    _judge(res, "harness-runtime", recs, tag + "-harness")
+    accepted = _judge(res, "harness-runtime", recs, tag + "-harness")
     res.extra["harness_runtime_trace"] = {"behaviours": len(sample), "events": len(recs)}
-    selftest(recs)
+    # the binding self test needs an accepted trace to corrupt (a rejected one is already reported as a violation)
+    if accepted:
+        selftest(recs)
     return recs
 
 
